@@ -42,10 +42,20 @@ ClassScen == {LET lc == LenSeq[(i % Len(LenSeq)) + 1]
                reruns |-> IF lc = "gt1mib" THEN <<>> ELSE <<[nbuf |-> RandomElement({1, 2, 3, 8, 64}), delivery |-> RandomElement({"file", "pipe"}), sched |-> "natural"]>>]
               : i \in 1..NSample}
 
+\* sources of more than 8 MiB (incompressible, so the stored chunk data is that long too), every writer x algorithm x transport
+HugeScen == {[writer |-> wr, nbuf |-> nb, lenclass |-> "gt8mib", content |-> "random", alg |-> a, rel |-> "gt", bits |-> 9, hl |-> 16, ctype |-> cp[1], clevel |-> cp[2],
+              meta |-> 1, delivery |-> "file", transport |-> tr, sched |-> "natural", idx |-> 0, over_existing |-> "none", reruns |-> <<>>]
+             : wr \in {"lib", "cli"}, a \in {0, 1, 2}, tr \in {"local", "http"}, nb \in {2}, cp \in {<<0, 0>>, <<2, 1>>}}
+            \cup
+            \* ... and sources of 1 200 chunks: a dictionary of ~100 KiB (TLC judges the decoded dictionary, so not more)
+            {[writer |-> wr, nbuf |-> 3, lenclass |-> "manychunks", content |-> "random", alg |-> 2, rel |-> "gt", bits |-> 9, hl |-> h, ctype |-> 0, clevel |-> 0,
+              meta |-> 1, delivery |-> "file", transport |-> tr, sched |-> "natural", idx |-> 0, over_existing |-> "none", reruns |-> <<>>]
+             : wr \in {"lib", "cli"}, tr \in {"local", "http"}, h \in {8, 64}}
+
 VARIABLE x
 Init == x = 0
 Next == x' = x
 Post == /\ TLCGet("stats").diameter >= 0
-        /\ ndJsonSerialize(IOEnv.GEN_OUT, SetToSeq(LateScen) \o SetToSeq(BigScen) \o SetToSeq(EqScen) \o SetToSeq(ExistScen) \o SetToSeq(IdScen) \o SetToSeq(ClassScen))
-        /\ PrintT(<<"GENERATED", Cardinality(LateScen) + Cardinality(BigScen) + Cardinality(EqScen) + Cardinality(ExistScen) + Cardinality(IdScen) + Cardinality(ClassScen)>>)
+        /\ ndJsonSerialize(IOEnv.GEN_OUT, SetToSeq(LateScen) \o SetToSeq(BigScen) \o SetToSeq(EqScen) \o SetToSeq(ExistScen) \o SetToSeq(IdScen) \o SetToSeq(ClassScen) \o SetToSeq(HugeScen))
+        /\ PrintT(<<"GENERATED", Cardinality(LateScen) + Cardinality(BigScen) + Cardinality(EqScen) + Cardinality(ExistScen) + Cardinality(IdScen) + Cardinality(ClassScen) + Cardinality(HugeScen)>>)
 =============================================================================
